@@ -26,6 +26,7 @@ static rfbScreenInfoPtr scr;
 static int W, H, B;                 /* what the application installed last */
 typedef struct {
   int used, fmt, pw, ph, cap, scaled;
+  int needfull;                     /* the client's picture was invalidated by its own SetScale and it has not yet asked for everything again */
   uint32_t *pic;
   int told_w, told_h;               /* last size the client was told (ServerInit / size message / ResizeFrameBuffer) */
   int stale;                        /* resize-capable client: framebuffer replaced, size message not yet seen */
@@ -131,6 +132,7 @@ static int in_cursor_box(rfbClientPtr cl, int x, int y) {
 static void oracle_inv(int n) {
   rfbClientPtr cl = conns[n].cl; unsigned char *m, *c; int x, y, bad = 0, bx = -1, by = -1, outside = 0, idle;
   if (!live(n)) return;
+  if (hc[n].needfull) { printf("!inv %d skip awaiting the client's full request after its SetScale\n", n); return; }
   idle = sraRgnEmpty(cl->modifiedRegion) && sraRgnEmpty(cl->copyRegion);
   m = mask_of(cl->modifiedRegion, scr->width, scr->height, &outside);
   c = mask_of(cl->copyRegion, scr->width, scr->height, &outside);
@@ -340,6 +342,7 @@ static void do_newfb(int w, int h, int b, uint32_t seed) {
   for (i = 0; i < MAXC; i++) {
     if (!live(i)) continue;
     check_scaled(i);
+    hc[i].needfull = 0;
     if (conns[i].cl->useNewFBSize) hc[i].stale = 1;
     else { rfbScreenInfoPtr ss = conns[i].cl->scaledScreen;   /* cannot be told: the oracle uses the new size */
       hc[i].told_w = ss->width; hc[i].told_h = ss->height; repic(i, ss->width, ss->height); }
@@ -350,6 +353,7 @@ static void do_newfb(int w, int h, int b, uint32_t seed) {
 static void full_request(int id) {
   unsigned char m[10] = { 3, 0, 0, 0, 0, 0, 0xFF, 0xFF, 0xFF, 0xFF };
   if (!talk(id)) return;
+  hc[id].needfull = 0;
   vh_send(&conns[id], m, 10);
   rfbProcessClientMessage(conns[id].cl);
 }
@@ -448,8 +452,10 @@ int main(void) {
       vh_drain(&conns[id]);
       apply_msgs(id);                 /* "none", or the palette */
       full_request(id);
-    } else if (!strcmp(tok[0], "setscale") && n == 3) {
-      int id = atoi(tok[1]); unsigned char m[4];
+    } else if (!strcmp(tok[0], "setscale") && (n == 3 || n == 4)) {
+      /* 4th argument 0: the viewer does NOT ask for a full update right away (it keeps whatever request is
+         outstanding); the size message must reach it all the same */
+      int id = atoi(tok[1]), rerequest = !(n == 4 && atoi(tok[3]) == 0); unsigned char m[4];
       if (!talk(id)) { puts("bad-op"); continue; }
       m[0] = 8; m[1] = (unsigned char)atoi(tok[2]); m[2] = 0; m[3] = 0;
       vh_send(&conns[id], m, 4);
@@ -458,7 +464,7 @@ int main(void) {
       vh_drain(&conns[id]);
       hc[id].scaled = conns[id].cl->scaledScreen != scr;
       apply_msgs(id);
-      full_request(id);
+      if (rerequest) full_request(id); else hc[id].needfull = 1;
     } else if (!strcmp(tok[0], "ptr") && n == 4) {
       int id = atoi(tok[1]), x = atoi(tok[2]), y = atoi(tok[3]); unsigned char m[6];
       if (!talk(id)) { puts("bad-op"); continue; }
@@ -511,6 +517,7 @@ int main(void) {
     } else if (!strcmp(tok[0], "req") && n == 7) {
       int id = atoi(tok[1]); unsigned char m[10]; int x = atoi(tok[3]), y = atoi(tok[4]), w = atoi(tok[5]), h = atoi(tok[6]);
       if (!talk(id)) { puts("bad-op"); continue; }
+      if (!atoi(tok[2]) && x == 0 && y == 0 && w >= conns[id].cl->scaledScreen->width && h >= conns[id].cl->scaledScreen->height) hc[id].needfull = 0;
       m[0] = 3; m[1] = (unsigned char)atoi(tok[2]);
       m[2] = x >> 8; m[3] = x & 255; m[4] = y >> 8; m[5] = y & 255; m[6] = w >> 8; m[7] = w & 255; m[8] = h >> 8; m[9] = h & 255;
       vh_send(&conns[id], m, 10);
